@@ -2179,6 +2179,7 @@ class tensor:
             newsiz = np.concatenate(
                 (np.max((self.shape, bsiz[0:n] + 1), axis=0), bsiz[n:] + 1)
             ).astype(int)
+        old_data, old_shape = self.data, self.shape
         if not np.array_equal(newsiz, self.shape):
             # We need to enlarge x.data.
             newData = np.zeros(shape=tuple(newsiz))
@@ -2189,10 +2190,15 @@ class tensor:
             self.data = newData
 
             self.shape = tuple(newsiz)
-        if isinstance(value, ttb.tensor):
-            self.data[key] = value.data
-        else:
-            self.data[key] = value
+        try:
+            if isinstance(value, ttb.tensor):
+                self.data[key] = value.data
+            else:
+                self.data[key] = value
+        except Exception:
+            # A rejected assignment must not leave the tensor enlarged
+            self.data, self.shape = old_data, old_shape
+            raise
 
     def _set_subscripts(self, key, value):
         # Extract array of subscripts
